@@ -13,7 +13,7 @@ trap cleanup EXIT
 cd "$SCR" || exit 2
 if ! patch -s -p1 < "$SRC/patch.diff"; then echo "SEED $NAME patch-does-not-apply"; exit 2; fi
 find . -name '*.orig' -delete
-SUITE="$(CARGO_NET_OFFLINE=true cargo test --workspace --no-fail-fast --offline 2>&1 | grep -E '^test result' | head -3 | awk '{print $4"/"$6}' | tr '\n' ' ')"
+SUITE="$(CARGO_NET_OFFLINE=true timeout 900 cargo test --workspace --no-fail-fast --offline 2>&1 | grep -E '^test result' | head -3 | awk '{print $4"/"$6}' | tr '\n' ' ')"
 DEMO_WITH="n/a"; DEMO_WITHOUT="n/a"
 if [ -f "$SRC/seed_demo.rs" ]; then
   mkdir -p ddo/tests; cp "$SRC/seed_demo.rs" ddo/tests/seed_demo.rs
